@@ -175,7 +175,6 @@ class SetEncoder(encoder.SequenceEncoder):
         substrate = null
 
         comps = []
-        compsMap = {}
 
         if asn1Spec is None:
             # instance of ASN.1 schema
@@ -195,12 +194,10 @@ class SetEncoder(encoder.SequenceEncoder):
                     if namedType.isDefaulted and component == namedType.asn1Object:
                             continue
 
-                    compsMap[id(component)] = namedType
-
                 else:
-                    compsMap[id(component)] = None
+                    namedType = None
 
-                comps.append((component, asn1Spec))
+                comps.append((component, asn1Spec, namedType))
 
         else:
             # bare Python value + ASN.1 schema
@@ -222,11 +219,12 @@ class SetEncoder(encoder.SequenceEncoder):
                         encodeFun(namedType.asn1Object, **options)):
                     continue
 
-                compsMap[id(component)] = namedType
-                comps.append((component, namedType.asn1Object))
+                comps.append((component, namedType.asn1Object, namedType))
 
-        for comp, compType in sorted(comps, key=self._componentSortKey):
-            namedType = compsMap[id(comp)]
+        # the member declaration travels with the component: the same Python
+        # object may be the value of more than one member
+        for comp, compType, namedType in sorted(
+                comps, key=lambda x: self._componentSortKey(x[:2])):
 
             if namedType:
                 options.update(ifNotEmpty=namedType.isOptional)
